@@ -717,10 +717,12 @@ def rule_mp_order(ctx, m):
             raise AnalysisError('anchor vanished: dtw.%s' % q)
         workers += 1
         prm = g.args[0]
-        rets = [s_ for s_ in g.body if s_.k == 'return' and s_.value is not None and s_.value[0] == 'call']
-        ok = len(rets) == 1
+        # the one distance call of the worker, returned directly or through a local
+        cands = [x for s_ in walk_stmts(g.body) for e_ in stmt_exprs(s_) for x in walk_expr(e_)
+                 if x[0] == 'call' and (dotted(x[1]) or '').split('.')[-1] in ('distance', 'distance_ndim', 'distance_fast')]
+        ok = len(cands) == 1
         if ok:
-            c = rets[0].value
+            c = cands[0]
             ok = tuple(c[2][:2]) == (('idx', ('var', prm), ('num', 0)), ('idx', ('var', prm), ('num', 1))) and \
                 any(k is None and v == ('idx', ('var', prm), ('num', 2)) for k, v in c[3])
         ctx.check(ok, 'R-ITER', mod.path, q, 'work item order',
